@@ -11,6 +11,7 @@ mod gen_idswap;
 mod cmd_native;
 mod native;
 mod cmd_heapops;
+mod cmd_heapfull;
 mod cmd_focus;
 mod cmd_stages;
 mod cmd_shrink;
@@ -120,6 +121,7 @@ fn main() {
         "codegen-all" => cmd_rvall::cmd_codegen_all(num(2, 1), num(3, 0) as usize, &mut *out, &args[5.min(args.len())..]),
         "show-rvmini" => { use printer::Print; let mut r = Rng::new(num(2, 1)); for _ in 0..num(3, 1) { let p = gen_rvmini::program(&mut r.fork(), 14); println!("{}\n-- check: {:?}\n", p.print_to_string(None), gen_rvmini::check(&p)); } }
         "heapops-x86" => cmd_heapops::cmd_heapops(num(2, 1), num(3, 50) as usize, &mut *out),
+        "heapfull-x86" => cmd_heapfull::cmd_heapfull(num(2, 1), num(3, 8) as usize, &mut *out),
         "pm" => cmd_pm(num(2, 1), num(3, 100) as usize, &mut *out),
         "lin-show" => { cmd_lin::cmd_lin_show(num(2, 1)); return; }
         "lin" => cmd_lin::cmd_lin(num(2, 1), num(3, 100) as usize, &mut *out, args.get(5..).unwrap_or(&[])),
